@@ -83,15 +83,12 @@ namespace awkward {
     for (auto x : contents_) {
       x.get()->clear();
     }
-    keys_.clear();
-    pointers_.clear();
-    name_ = "";
-    nameptr_ = nullptr;
-    length_ = -1;
+    if (length_ != -1) {
+      length_ = 0;
+    }
     begun_ = false;
     nextindex_ = -1;
     nexttotry_ = 0;
-    keys_size_ = 0;
   }
 
   const ContentPtr
